@@ -3150,23 +3150,23 @@ CLAUSES = [
     # min_share values are about half of the share observed on the unchanged /repo, where the cases that hit an open
     # finding are excluded without labels (they still count in the denominator)
     Clause('interp', oracle_interp, G.interp_cases, quick=780, thorough=16000,
-           min_share={'nt': 0.45, 'oblique': 0.35, 'dup_edge': 0.25, 'delta': 0.2, 'kind_random': 0.18, 'list': 0.2,
-                      'history': 0.2, 'history_reload_set': 0.1, 'history_reload_model': 0.1, 'history_back': 0.08,
-                      'lscale_1': 0.2, 'lscale_small': 0.2, 'lscale<=1e-5': 0.14, 'lscale_big': 0.05,
+           min_share={'nt': 0.44, 'oblique': 0.31, 'dup_edge': 0.23, 'delta': 0.19, 'kind_random': 0.18, 'list': 0.2,
+                      'history': 0.19, 'history_reload_set': 0.1, 'history_reload_model': 0.1, 'history_back': 0.08,
+                      'lscale_1': 0.2, 'lscale_small': 0.19, 'lscale<=1e-5': 0.13, 'lscale_big': 0.036,
                       'escale_1': 0.2, 'escale_small': 0.14, 'escale_big': 0.11, 'scaled_both': 0.15},
            desc='E_gsf/delta reproduce every input value at its sampled (a1,a2), smooth and nearest modes, arrays/lists/floats'),
     Clause('periodic', oracle_periodic, _periodic_cases, quick=780, thorough=16000,
            min_share={'special_q': 0.08, 'nt': 0.35, 'oblique': 0.28, 'shifted': 0.35, 'scalar': 0.18, 'history_mode_order': 0.2, 'history_mode_back': 0.1,
-                      'lscale_1': 0.2, 'lscale_small': 0.17, 'lscale_big': 0.05, 'escale_1': 0.22, 'escale_small': 0.1, 'escale_big': 0.11},
+                      'lscale_1': 0.2, 'lscale_small': 0.15, 'lscale_big': 0.036, 'escale_1': 0.21, 'escale_small': 0.1, 'escale_big': 0.11},
            desc='E(a1+k1, a2+k2) = E(a1, a2) for integer periods; nearest mode equals the exact nearest-sample table'),
     Clause('coords', with_units(keyed_f16(keyed_inplane_assert(oracle_coords))), G.coords_cases, quick=1020, thorough=20000,
            # (new classes: only labels with a large share are guarded, at a third of the lowest share seen - the shares of
            # Hypothesis-generated classes vary by a factor of 2-8 between seeds and between complete and wall-limited runs)
            min_share={'special_q': 0.08, 'near_plane_pos': 0.15, 'near_plane_xvect': 0.05, 'units': 0.05,
-                      'nt': 0.45, 'oblique': 0.4, 'npts3': 0.15, 'xvect': 0.18, 'scalar': 0.18,
+                      'nt': 0.44, 'oblique': 0.36, 'npts3': 0.15, 'xvect': 0.18, 'scalar': 0.18,
                       'history': 0.25, 'history_reload_set': 0.08, 'history_reload_model': 0.08, 'history_swap': 0.08, 'history_other_mode': 0.04,
-                      'form_ro': 0.06, 'form_strided': 0.05, 'form_tuple': 0.04, 'form_npscalar': 0.04, 'form_int': 0.05, 'int_typed': 0.04,
-                      'lscale_1': 0.22, 'lscale_small': 0.15, 'lscale<=1e-5': 0.1, 'lscale_big': 0.06,
+                      'form_ro': 0.054, 'form_strided': 0.05, 'form_tuple': 0.04, 'form_npscalar': 0.04, 'form_int': 0.045, 'int_typed': 0.04,
+                      'lscale_1': 0.22, 'lscale_small': 0.15, 'lscale<=1e-5': 0.1, 'lscale_big': 0.054,
                       'escale_small': 0.1, 'escale_big': 0.09},
            desc='a12_to_pos, pos_to_xy, xy_to_pos, a12_to_xy, pos_to_a12(single) against independent basis algebra; mutual inverses'),
     Clause('coords_multi', with_units(keyed_f16(keyed_inplane_assert(oracle_coords_multi))), G.coords_cases, quick=1020, thorough=20000,
@@ -3185,23 +3185,23 @@ CLAUSES = [
            desc='pos_to_a12 / xy_to_a12 on 1,2,3,7 positions; E_gsf and delta given a1/a2, pos, x/y agree; every combination of the '
                 'keywords a1vect / a2vect / xvect of all conversion methods and of E_gsf / delta; input forms; caller\'s arrays unchanged'),
     Clause('coords_dtypes', keyed_f16(keyed_inplane_assert(oracle_coords_dtypes)), functools.partial(G.coords_cases, True), quick=260, thorough=5000,
-           min_share=_BlockedGuard({'nt': 0.45, 'narrow': 0.5, 'form_narrow': 0.5, 'history': 0.15, 'altvect': 0.12},
+           min_share=_BlockedGuard({'nt': 0.44, 'narrow': 0.5, 'form_narrow': 0.5, 'history': 0.15, 'altvect': 0.12},
                                    drop_alt=('altvect',)),
            desc='storage and input dtypes of the conversions and of E_gsf / delta: float32, float16, int8, int16, uint8, uint16, big-endian, Fortran / '
                 'reversed-stride arrays and numpy scalars holding exactly representable values (eighths, whole coordinates up to the dtype limits, '
                 'dyadic shift vectors), judged by the oracles of coords and coords_multi'),
     Clause('model', with_units(oracle_model), G.model_cases, quick=350, thorough=6000,
-           min_share={'units': 0.05, 'nt': 0.3, 'json': 0.3, 'history_load_into_existing': 0.2,
-                      'lscale_1': 0.2, 'lscale_small': 0.19, 'lscale_big': 0.05, 'escale_1': 0.22, 'escale_small': 0.1, 'escale_big': 0.09},
+           min_share={'units': 0.05, 'nt': 0.3, 'json': 0.26, 'history_load_into_existing': 0.19,
+                      'lscale_1': 0.2, 'lscale_small': 0.19, 'lscale_big': 0.036, 'escale_1': 0.21, 'escale_small': 0.1, 'escale_big': 0.09},
            desc='model() -> JSON/XML text, DataModelDict or file -> GammaSurface: same data, vectors, box, answers'),
     Clause('pn_terms', with_units(keyed_dtype(oracle_pn_terms)), G.pn_hist_cases, quick=1280, thorough=25000,
            min_share=_BlockedGuard({'frame_signed_axes': 0.08, 'near_inplane_dy': 0.08, 'units': 0.04, 'nt': 0.16, 'mixed': 0.23, 'K_offdiag': 0.13, 'N>120': 0.1, 'cdiffelastic': 0.15, 'tau': 0.15,
-                                    'history': 0.2, 'history_same_len_new_spacing': 0.12, 'history_setter_between': 0.15,
-                                    'history_settings_changed': 0.12, 'history_new_len': 0.06, 'history_steps>=2': 0.15,
-                                    'forms': 0.35, 'history_forms': 0.2, 'int_typed': 0.2, 'xform_int': 0.1, 'dform_int': 0.07,
+                                    'history': 0.19, 'history_same_len_new_spacing': 0.067, 'history_setter_between': 0.14,
+                                    'history_settings_changed': 0.092, 'history_new_len': 0.044, 'history_steps>=2': 0.14,
+                                    'forms': 0.35, 'history_forms': 0.18, 'int_typed': 0.18, 'xform_int': 0.096, 'dform_int': 0.07,
                                     'dform_ro': 0.03, 'xform_ro': 0.025, 'dform_strided': 0.035, 'xform_tuple': 0.03, 'list_args': 0.035,
-                                    'lscale_1': 0.2, 'lscale_small': 0.14, 'lscale<=1e-5': 0.1, 'lscale_big': 0.11,
-                                    'escale_1': 0.2, 'escale_small': 0.11, 'escale_big': 0.14, 'scaled_both': 0.15},
+                                    'lscale_1': 0.2, 'lscale_small': 0.14, 'lscale<=1e-5': 0.1, 'lscale_big': 0.1,
+                                    'escale_1': 0.2, 'escale_small': 0.11, 'escale_big': 0.13, 'scaled_both': 0.15},
                                    drop_listarg=('list_args',)),
            desc='disldensity, elastic, long-range, stress (both forms), surface, nonlocal vs independent formula evaluation; quadratic form, rigid shift; '
                 'repeated evaluations on one object (arguments / setters / changed settings)'),
@@ -3209,9 +3209,9 @@ CLAUSES = [
            min_share=_BlockedGuard({'frame_signed_axes': 0.08, 'near_inplane_dy': 0.08, 'units': 0.03, 'nt': 0.15, 'mixed': 0.23, 'wraps': 0.1, 'crystal_rot': 0.15,
                                     'history': 0.17, 'history_same_len_new_spacing': 0.09, 'history_setter_between': 0.12,
                                     'history_settings_changed': 0.06, 'history_new_len': 0.035,
-                                    'forms': 0.35, 'history_forms': 0.2, 'int_typed': 0.2, 'xform_int': 0.1, 'dform_int': 0.07,
+                                    'forms': 0.35, 'history_forms': 0.18, 'int_typed': 0.18, 'xform_int': 0.096, 'dform_int': 0.07,
                                     'dform_ro': 0.03, 'xform_ro': 0.03, 'list_args': 0.035,
-                                    'lscale_1': 0.2, 'lscale_small': 0.14, 'lscale<=1e-5': 0.1, 'lscale_big': 0.11,
+                                    'lscale_1': 0.2, 'lscale_small': 0.14, 'lscale<=1e-5': 0.1, 'lscale_big': 0.1,
                                     'escale_1': 0.2, 'escale_small': 0.12, 'escale_big': 0.12, 'scaled_both': 0.15},
                                    drop_listarg=('list_args',)),
            desc='misfit energy vs dx*sum gamma(delta) by independent conversion; total = sum of the six terms = independent evaluation; '
@@ -3223,7 +3223,7 @@ CLAUSES = [
     Clause('solve', keyed_dtype(keyed_inplane_assert(oracle_solve)), G.solve_cases, quick=64, thorough=640, max_share={'timeout_skipped': 0.2},
            min_share=_BlockedGuard({'moved': 0.5, 'lowered': 0.4, 'history': 0.28, 'history_same_len_new_spacing': 0.05,
                                     'history_eval_between_store_and_solve': 0.07,
-                                    'forms': 0.4, 'int_typed': 0.2, 'dform_int': 0.08, 'dform_ro': 0.03,
+                                    'forms': 0.4, 'int_typed': 0.18, 'dform_int': 0.08, 'dform_ro': 0.03,
                                     'lscale_1': 0.2, 'lscale_small': 0.05, 'lscale_big': 0.04, 'escale_small': 0.08, 'escale_big': 0.08}),
            desc='solve never raises the (independently evaluated) total energy, end rows/x/out-of-plane component unchanged; initial guess '
                 'and x as float / integer-typed / read-only / non-contiguous arrays, lists, tuples: caller\'s arrays unchanged, stored '
@@ -3231,7 +3231,7 @@ CLAUSES = [
     Clause('halfwidth', oracle_halfwidth, G.halfwidth_cases, quick=32, thorough=320,
            min_share=_BlockedGuard({'scaled': 0.3, 'lscale_small': 0.12, 'lscale_1': 0.2}),
            desc='sinusoidal misfit law: arctangent profile of lowest total energy has the classical half-width K b^2/(4 pi^2 gamma0)'),
-    Clause('decades', oracle_decades, G.decades_cases, quick=300, thorough=6000, min_share={'nt': 0.45, 'decades>=8': 0.45, 'oblique': 0.2},
+    Clause('decades', oracle_decades, G.decades_cases, quick=300, thorough=6000, min_share={'nt': 0.44, 'decades>=8': 0.45, 'oblique': 0.2},
            desc='one query array whose rows span 8-11 orders of magnitude: every conversion row by row relative to the magnitude of the row and '
                 'equal to the call with that row alone; E_gsf / delta of the array equal every row alone'),
     Clause('ledger', oracle_ledger, G.ledger_cases, quick=300, thorough=6000,
@@ -3246,6 +3246,6 @@ CLAUSES = [
     Clause('pn_options', oracle_pn_options, enumerate=G.option_cases,
            desc='every combination of fullstress / cdiffelastic / cdiffsurface / cdiffstress reached from every other one through the setters in every '
                 'order, through the constructor and through solve() keywords; all terms judged after every single change'),
-    Clause('arctan', with_units(oracle_arctan), G.arctan_cases, quick=1400, thorough=25000, min_share={'near_xmax': 0.04, 'units': 0.06, 'nt': 0.5, 'normalize': 0.2, 'derivative': 0.15, 'lscale_1': 0.2, 'lscale_small': 0.2, 'lscale<=1e-5': 0.13, 'lscale_big': 0.06},
+    Clause('arctan', with_units(oracle_arctan), G.arctan_cases, quick=1400, thorough=25000, min_share={'near_xmax': 0.04, 'units': 0.06, 'nt': 0.5, 'normalize': 0.2, 'derivative': 0.12, 'lscale_1': 0.2, 'lscale_small': 0.19, 'lscale<=1e-5': 0.13, 'lscale_big': 0.054},
            desc='pn_arctan_disregistry / pn_arctan_disldensity against the analytic forms, normalisation, x generation'),
 ]
